@@ -198,8 +198,16 @@ binary_encoding_handlers = {
     BINARY_ENCODING_URLSAFE_BASE64: ByteArray.to_urlsafe_base64,
 }
 
+def _raw_binary_decoding(b):
+    # no encoding: the value is the byte string itself. text is not.
+    if isinstance(b, six.text_type):
+        raise ValidationError(b)
+
+    return (b,)
+
+
 binary_decoding_handlers = {
-    None: lambda x: (x,),
+    None: _raw_binary_decoding,
     BINARY_ENCODING_HEX: ByteArray.from_hex,
     BINARY_ENCODING_BASE64: ByteArray.from_base64,
     BINARY_ENCODING_URLSAFE_BASE64: ByteArray.from_urlsafe_base64,
